@@ -185,13 +185,12 @@ Definition wf_stateb (w : wstate E) : bool :=
   && forallb (fun ic => match c_density (snd ic) with
                         | Some d => String.eqb (c_density_norm (snd ic)) d
                         | None => true
-                        end) (w_cells w)
-  && forallb (fun kb => zmem (fst kb) (used_surfaces (w_vols w))) (w_bcs w).
+                        end) (w_cells w).
 
 Theorem wf_stateb_sound w : wf_stateb w = true -> wf_state w.
 Proof.
   unfold wf_stateb. rewrite !andb_true_iff, !forallb_In.
-  intros [[[[[[[A B] C] D] F] G] H] I]. constructor.
+  intros [[[[[[A B] C] D] F] G] H]. constructor.
   - apply refs_okb_sound. assumption.
   - apply sides_okb_sound. assumption.
   - apply existsb_exists in C. destruct C as [[k v] [Hin C]]. simpl in C.
@@ -206,8 +205,6 @@ Proof.
     exists c. split; [reflexivity|]. apply cell_namedb_sound. assumption.
   - intros cid c Hin d Hd. specialize (H (cid, c) Hin). simpl in H. rewrite Hd in H.
     apply String.eqb_eq. assumption.
-  - intros k b Hin. specialize (I (k, b) Hin). simpl in I. apply zmem_In in I.
-    apply used_surfaces_In in I. assumption.
 Qed.
 
 End StateB.
